@@ -1,6 +1,7 @@
 """C10 check configuration (see lib/props.py for the field meanings)."""
 
 PROP = {
+    "thorough_scale": 4,
     "pkg": "internal/dhcpd",
     "files": ["dhcpd/c10_world_test.go", "dhcpd/c10_machine_test.go", "dhcpd/c10_regress_test.go"],
     "level": "exploration",
